@@ -28,3 +28,29 @@ def _auto_escape(repo):
             "def c06AutoEscapeHtmlExts : List String := %s\n"
             "def c06AutoEscapeJsonExts : List String := %s" % (lst(ignored), lst(arms["Html"]), lst(arms["Json"])))
     return {"ignored": ignored, "html": arms["Html"], "json": arms["Json"]}, lean
+
+
+@item("C06_UNDEFINED_TABLES")
+def _undefined(repo):
+    """`UndefinedBehavior::handle_undefined` (attribute / item lookup on a value) and the set of
+    modes under which `Emit` of an undefined value fails (`strict_undefined` in `eval_impl`)."""
+    utils = read(repo, "minijinja/src/utils.rs")
+    body = fn_body(utils, r"pub\(crate\) fn handle_undefined\s*\(")
+    rows = []
+    for arm in re.finditer(r"((?:\|?\s*\(UndefinedBehavior::\w+,\s*(?:true|false|_)\)\s*)+)=>\s*(Ok|Err)\(", body):
+        for mode, flag in re.findall(r"\(UndefinedBehavior::(\w+),\s*(true|false|_)\)", arm.group(1)):
+            for f in ([True, False] if flag == "_" else [flag == "true"]):
+                rows.append((mode, f, arm.group(2) == "Err"))
+    modes = sorted({m for m, _, _ in rows})
+    if len({(m, f) for m, f, _ in rows}) != len(rows) or len(rows) != 2 * len(modes):
+        raise KeyError("handle_undefined arms do not form a total table")
+    vm = read(repo, "minijinja/src/vm/mod.rs")
+    m = re.search(r"let strict_undefined = matches!\(\s*undefined_behavior,\s*([^)]*)\)", vm)
+    if not m:
+        raise KeyError("strict_undefined")
+    strict = re.findall(r"UndefinedBehavior::(\w+)", m.group(1))
+    lean = ("def c06HandleUndefined : List (String × Bool × Bool) := [%s]\n"
+            "def c06StrictEmit : List String := [%s]" % (
+                ", ".join("(%s, %s, %s)" % (lean_str(a), str(b).lower(), str(c).lower()) for a, b, c in sorted(rows)),
+                ", ".join(lean_str(x) for x in strict)))
+    return {"handle_undefined": sorted(rows), "strict_emit": strict}, lean
